@@ -52,7 +52,8 @@ deriving DecidableEq, Repr
 inductive WSt | alive | hung | exited
 deriving DecidableEq, Repr
 
-inductive Reply | okR | failR
+/-- a reply in a pipe: the payload of command `k`, or `(None, False)` -/
+inductive Reply | okR (k : Cmd) | failR
 deriving DecidableEq, Repr
 
 /-- error classes seen by the caller -/
@@ -63,7 +64,9 @@ inductive Exc
   | timeout             -- multiprocessing.TimeoutError
   | eof                 -- EOFError            (A3)
   | brokenPipe          -- BrokenPipeError     (A2)
-  | attributeError      -- AttributeError      (A2: `None.send`)
+  | attributeError      -- AttributeError      (A2: `None.send`; `reset_wait` decoding a stale reply)
+  | keyError            -- KeyError            (`step_wait` decoding a stale `reset` reply)
+  | typeError           -- TypeError           (`step_wait` decoding a stale `call`/`set_attr` reply)
   | worker (t : Nat)    -- the exception type `t` raised inside a sub-environment
 deriving DecidableEq, Repr
 
@@ -102,14 +105,14 @@ def lookupFault (fs : List FaultAt) (c : Cmd) (k : Nat) : Option Fault :=
 /-- a live worker executes one command (`_async_worker` loop body + its `except`/`finally`) -/
 def Worker.run (w : Worker) (c : Cmd) : Worker × ErrQ :=
   match c with
-  | .close => ({ w with st := .exited, inbox := w.inbox ++ [.okR] }, [])
+  | .close => ({ w with st := .exited, inbox := w.inbox ++ [.okR .close] }, [])
   | _ =>
     let w1 := w.bump c
     match lookupFault w.faults c (w.count c) with
-    | none => ({ w1 with inbox := w1.inbox ++ [.okR] }, [])
+    | none => ({ w1 with inbox := w1.inbox ++ [.okR c] }, [])
     | some (.raise t) => ({ w1 with st := .exited, inbox := w1.inbox ++ [.failR] }, [(w.idx, t)])
     | some .kill => ({ w1 with st := .exited }, [])
-    | some .sleep => ({ w1 with st := .hung, backlog := [] }, [])
+    | some .sleep => ({ w1 with st := .hung, backlog := [c] }, [])      -- head = the sleeping command
 
 /-- run queued commands while the worker stays alive; what is left stays queued if it sleeps again -/
 def Worker.runList (w : Worker) : List Cmd → Worker × ErrQ
@@ -120,13 +123,18 @@ def Worker.runList (w : Worker) : List Cmd → Worker × ErrQ
       let (w1, e1) := w.run c
       match w1.st with
       | .alive => let (w2, e2) := w1.runList cs; (w2, e1 ++ e2)
-      | .hung => ({ w1 with backlog := cs }, e1)
+      | .hung => ({ w1 with backlog := w1.backlog ++ cs }, e1)
       | .exited => (w1, e1)
     | _ => (w, [])
 
-/-- the sleeping command finishes (reply ok), then the queued commands run -/
+/-- the sleeping command (head of `backlog`) finishes with its normal reply, then the queued
+    commands run -/
 def Worker.wake (w : Worker) : Worker × ErrQ :=
-  ({ w with st := .alive, inbox := w.inbox ++ [.okR], backlog := [] } : Worker).runList w.backlog
+  match w.backlog with
+  | [] => ({ w with st := .alive }, [])
+  | c :: rest =>
+    ({ w with st := (if c = .close then WSt.exited else WSt.alive), inbox := w.inbox ++ [.okR c],
+              backlog := [] } : Worker).runList rest
 
 /-- the parent's `pipe.send` reached the worker -/
 def Worker.deliver (w : Worker) (c : Cmd) : Worker × ErrQ :=
@@ -143,34 +151,35 @@ def Worker.drain : Nat → Worker → Worker × ErrQ
     | .hung => let (w1, e1) := w.wake; let (w2, e2) := Worker.drain n w1; (w2, e1 ++ e2)
     | _ => (w, [])
 
-/-- `for pipe in parent_pipes: pipe.send(cmd)` — stops at the first failing send -/
-def sendAll (c : Cmd) : List Worker → List Worker × ErrQ × Option Exc
-  | [] => ([], [], none)
+/-- one step of a loop over the workers: new worker, errors it put on the queue meanwhile,
+    the reply obtained (if any), and whether the loop stops here with an outcome -/
+abbrev StepRes := Worker × ErrQ × Option Reply × Option Outcome
+
+/-- `for … in zip(parent_pipes, …): body` — runs `f` on the workers in order and stops at the
+    first one whose body raises / blocks; the workers behind it are untouched -/
+def mapUntil (f : Worker → StepRes) : List Worker → List Worker × ErrQ × List Reply × Option Outcome
+  | [] => ([], [], [], none)
   | w :: ws =>
-    if w.pipeOpen = false then (w :: ws, [], some .attributeError)
-    else if w.st = .exited then (w :: ws, [], some .brokenPipe)
-    else
-      let (w1, e1) := w.deliver c
-      let (ws1, e2, r) := sendAll c ws
-      (w1 :: ws1, e1 ++ e2, r)
+    match f w with
+    | (w1, e1, r, some o) => (w1 :: ws, e1, r.toList, some o)
+    | (w1, e1, r, none) =>
+      match mapUntil f ws with
+      | (ws1, e2, rs, o) => (w1 :: ws1, e1 ++ e2, r.toList ++ rs, o)
+
+/-- `pipe.send(cmd)` (A2) -/
+def sendOne (c : Cmd) (w : Worker) : StepRes :=
+  if w.pipeOpen = false then (w, [], none, some (.err .attributeError))
+  else if w.st = .exited then (w, [], none, some (.err .brokenPipe))
+  else let (w1, e1) := w.deliver c; (w1, e1, none, none)
 
 /-- close_extras: `if pipe is not None and not pipe.closed: pipe.send(("close", None))` -/
-def sendClose : List Worker → List Worker × ErrQ × Option Exc
-  | [] => ([], [], none)
-  | w :: ws =>
-    if w.pipeOpen = false then
-      let (ws1, e2, r) := sendClose ws
-      (w :: ws1, e2, r)
-    else if w.st = .exited then (w :: ws, [], some .brokenPipe)
-    else
-      let (w1, e1) := w.deliver .close
-      let (ws1, e2, r) := sendClose ws
-      (w1 :: ws1, e1 ++ e2, r)
+def sendCloseOne (w : Worker) : StepRes :=
+  if w.pipeOpen = false then (w, [], none, none) else sendOne .close w
 
 inductive Recv | got (r : Reply) | eof | block | noPipe
 deriving DecidableEq, Repr
 
-/-- one blocking `pipe.recv()` -/
+/-- one blocking `pipe.recv()` (A3, A4, A5) -/
 def Worker.recv (w : Worker) : Worker × ErrQ × Recv :=
   if w.pipeOpen = false then (w, [], .noPipe)
   else match w.inbox with
@@ -185,39 +194,38 @@ def Worker.recv (w : Worker) : Worker × ErrQ × Recv :=
         | r :: rest => ({ w1 with inbox := rest }, e1, .got r)
         | [] => (w1, e1, .block)
 
-inductive RecvAll | done (rs : List Reply) | err (e : Exc) | hang
-deriving DecidableEq, Repr
+/-- what decoding a reply as the payload of `expected` raises (`none` = decodes fine):
+    `reset_wait` → `_add_info(infos, info, i)` needs a dict; `step_wait` → `ret[0][agent]` -/
+def decodeErr (expected : Cmd) : Reply → Option Exc
+  | .failR => none
+  | .okR k =>
+    if k = expected then none
+    else match expected with
+      | .reset => some .attributeError
+      | .step => if k = .reset then some .keyError else some .typeError
+      | _ => none
 
-def RecvAll.cons (r : Reply) : RecvAll → RecvAll
-  | .done rs => .done (r :: rs)
-  | x => x
-
-/-- `[pipe.recv() for pipe in parent_pipes]` — stops at the first exception -/
-def recvAll : List Worker → List Worker × ErrQ × RecvAll
-  | [] => ([], [], .done [])
-  | w :: ws =>
-    match w.recv with
-    | (w1, e1, .got r) =>
-      let (ws1, e2, res) := recvAll ws
-      (w1 :: ws1, e1 ++ e2, res.cons r)
-    | (w1, e1, .eof) => (w1 :: ws, e1, .err .eof)
-    | (w1, e1, .block) => (w1 :: ws, e1, .hang)
-    | (w1, e1, .noPipe) => (w1 :: ws, e1, .err .attributeError)
+/-- `pipe.recv()` followed by what the loop body does with the reply *inside* the loop
+    (`chk`: `step_wait` decodes there; the other waits only collect) -/
+def recvOne (chk : Reply → Option Exc) (w : Worker) : StepRes :=
+  match w.recv with
+  | (w1, e1, .got r) =>
+    match chk r with
+    | some x => (w1, e1, none, some (.err x))
+    | none => (w1, e1, some r, none)
+  | (w1, e1, .eof) => (w1, e1, none, some (.err .eof))
+  | (w1, e1, .block) => (w1, e1, none, some .hang)
+  | (w1, e1, .noPipe) => (w1, e1, none, some (.err .attributeError))
 
 /-- close_extras: `if pipe is not None and not pipe.closed: pipe.recv()` -/
-def recvClose : List Worker → List Worker × ErrQ × RecvAll
-  | [] => ([], [], .done [])
-  | w :: ws =>
-    if w.pipeOpen = false then
-      let (ws1, e2, res) := recvClose ws
-      (w :: ws1, e2, res)
-    else match w.recv with
-    | (w1, e1, .got r) =>
-      let (ws1, e2, res) := recvClose ws
-      (w1 :: ws1, e1 ++ e2, res.cons r)
-    | (w1, e1, .eof) => (w1 :: ws, e1, .err .eof)
-    | (w1, e1, .block) => (w1 :: ws, e1, .hang)
-    | (w1, e1, .noPipe) => (w1 :: ws, e1, .err .attributeError)
+def recvCloseOne (w : Worker) : StepRes :=
+  if w.pipeOpen = false then (w, [], none, none) else recvOne (fun _ => none) w
+
+/-- `pipe.close(); process.join()` (A4, A6): returns iff the process ends -/
+def joinOne (w : Worker) : StepRes :=
+  let (w1, e1) := Worker.drain (w.backlog.length + 1) w
+  if w1.st = .exited then ({ w1 with pipeOpen := false }, e1, none, none)
+  else (w1, e1, none, some .hang)
 
 /-- `_poll_pipe_envs(timeout)` with a timeout: every pipe has something to read now -/
 def Worker.ready (w : Worker) : Bool :=
@@ -241,10 +249,10 @@ structure State where
   errq : ErrQ := []
 deriving DecidableEq, Repr
 
-/-- `_raise_if_errors(successes)` followed by `self._state = DEFAULT` of the wait -/
+/-- `_raise_if_errors(successes)`; `.ok` = all succeeded, nothing touched -/
 def raiseIfErrors (s : State) (rs : List Reply) : State × Outcome :=
   let n := countFail rs
-  if n = 0 then ({ s with astate := .default }, .ok)
+  if n = 0 then (s, .ok)
   else if s.errq.length < n then (s, .hang)                       -- A5
   else
     let popped := s.errq.take n
@@ -253,70 +261,76 @@ def raiseIfErrors (s : State) (rs : List Reply) : State × Outcome :=
     | some (_, t) => ({ s with ws := ws', errq := s.errq.drop n, astate := .default }, .err (.worker t))
     | none => (s, .hang)
 
-/-- body of `reset_wait` / `step_wait` / `call_wait` after the guards; also the tail of `set_attr` -/
-def waitCore (s : State) (timed : Bool) : State × Outcome :=
+def inlineChk (expected : Cmd) : Reply → Option Exc :=
+  if expected = .step then decodeErr .step else fun _ => none
+
+/-- body of `reset_wait` / `step_wait` / `call_wait` after the guards (`expected` = the command
+    whose replies are awaited); also the tail of `set_attr`.
+    Repaired code: `_state = DEFAULT` as soon as the timeout check has passed; original code: only
+    on the success path (and inside `_raise_if_errors`). -/
+def waitCore (s : State) (expected : Cmd) (timed : Bool) : State × Outcome :=
   if timed && !pollAll s.ws then ({ s with astate := .default }, .err .timeout)
   else
-    match recvAll s.ws with
-    | (ws1, e, .hang) => ({ s with ws := ws1, errq := s.errq ++ e }, .hang)
-    | (ws1, e, .err x) =>
-      let st' := if s.fixed && x = .eof then AState.default else s.astate
-      ({ s with ws := ws1, errq := s.errq ++ e, astate := st' }, .err x)
-    | (ws1, e, .done rs) => raiseIfErrors { s with ws := ws1, errq := s.errq ++ e } rs
+    let s0 := if s.fixed then { s with astate := .default } else s
+    match mapUntil (recvOne (inlineChk expected)) s0.ws with
+    | (ws1, e, _, some o) => ({ s0 with ws := ws1, errq := s0.errq ++ e }, o)
+    | (ws1, e, rs, none) =>
+      match raiseIfErrors { s0 with ws := ws1, errq := s0.errq ++ e } rs with
+      | (s2, .ok) =>
+        match (if expected = .reset then rs.findSome? (decodeErr .reset) else none) with
+        | some x => (s2, .err x)
+        | none => ({ s2 with astate := .default }, .ok)
+      | r => r
+
+def cmdOf : AState → Cmd
+  | .default => .setattr | .wreset => .reset | .wstep => .step | .wcall => .call
 
 def asyncOp (s : State) (c : Cmd) (target : AState) : State × Outcome :=
   if s.closed then (s, .err .closedEnv)
   else if s.astate ≠ .default then (s, .err .alreadyPending)
   else
-    match sendAll c s.ws with
-    | (ws1, e, some x) => ({ s with ws := ws1, errq := s.errq ++ e }, .err x)
-    | (ws1, e, none) => ({ s with ws := ws1, errq := s.errq ++ e, astate := target }, .ok)
+    match mapUntil (sendOne c) s.ws with
+    | (ws1, e, _, some o) => ({ s with ws := ws1, errq := s.errq ++ e }, o)
+    | (ws1, e, _, none) => ({ s with ws := ws1, errq := s.errq ++ e, astate := target }, .ok)
 
 def waitOp (s : State) (expected : AState) (timed : Bool) : State × Outcome :=
   if s.closed then (s, .err .closedEnv)
   else if s.astate ≠ expected then (s, .err .noAsyncCall)
-  else waitCore s timed
+  else waitCore s (cmdOf expected) timed
 
 def setAttrOp (s : State) : State × Outcome :=
   if s.closed then (s, .err .closedEnv)
   else if s.astate ≠ .default then (s, .err .alreadyPending)
   else
-    match sendAll .setattr s.ws with
-    | (ws1, e, some x) => ({ s with ws := ws1, errq := s.errq ++ e }, .err x)
-    | (ws1, e, none) => waitCore { s with ws := ws1, errq := s.errq ++ e } false
+    match mapUntil (sendOne .setattr) s.ws with
+    | (ws1, e, _, some o) => ({ s with ws := ws1, errq := s.errq ++ e }, o)
+    | (ws1, e, _, none) => waitCore { s with ws := ws1, errq := s.errq ++ e } .setattr false
 
 def terminateAll (ws : List Worker) : List Worker :=
   ws.map (fun w => { w with st := .exited, pipeOpen := false })
 
-/-- `pipe.close()` for all, then `process.join()` for all (A4, A6) -/
-def joinAll : List Worker → List Worker × ErrQ × Bool
-  | [] => ([], [], true)
-  | w :: ws =>
-    let (w1, e1) := Worker.drain (w.backlog.length + 1) w
-    let (ws1, e2, okRest) := joinAll ws
-    ({ w1 with pipeOpen := false } :: ws1, e1 ++ e2, decide (w1.st = .exited) && okRest)
+/-- what the repaired `close_extras` does when a step of the graceful shutdown fails with `o`:
+    a dead pipe ⇒ terminate everybody; the original code lets the error escape -/
+def closeFail (s : State) (o : Outcome) : State × Outcome :=
+  match o with
+  | .hang => (s, .hang)
+  | _ => if s.fixed then ({ s with ws := terminateAll s.ws, closed := true }, .ok) else (s, o)
 
-/-- the graceful branch of `close_extras` and the final close/join.
-    result: `none` = finished, `some o` = raised / hung with outcome `o` -/
+/-- the graceful branch of `close_extras` (send `close`, receive one reply per open pipe), then
+    `pipe.close()` / `process.join()` for every worker -/
 def closeTail (s : State) (terminate : Bool) : State × Outcome :=
   if terminate then ({ s with ws := terminateAll s.ws, closed := true }, .ok)
   else
-    match sendClose s.ws with
-    | (ws1, e1, some x) =>
-      let s1 := { s with ws := ws1, errq := s.errq ++ e1 }
-      if s.fixed then ({ s1 with ws := terminateAll s1.ws, closed := true }, .ok)
-      else (s1, .err x)
-    | (ws1, e1, none) =>
-      match recvClose ws1 with
-      | (ws2, e2, .hang) => ({ s with ws := ws2, errq := s.errq ++ e1 ++ e2 }, .hang)
-      | (ws2, e2, .err x) =>
-        let s2 := { s with ws := ws2, errq := s.errq ++ e1 ++ e2 }
-        if s.fixed then ({ s2 with ws := terminateAll s2.ws, closed := true }, .ok)
-        else (s2, .err x)
-      | (ws2, e2, .done _) =>
-        match joinAll ws2 with
-        | (ws3, e3, true) => ({ s with ws := ws3, errq := s.errq ++ e1 ++ e2 ++ e3, closed := true }, .ok)
-        | (ws3, e3, false) => ({ s with ws := ws3, errq := s.errq ++ e1 ++ e2 ++ e3 }, .hang)
+    match mapUntil sendCloseOne s.ws with
+    | (ws1, e1, _, some o) => closeFail { s with ws := ws1, errq := s.errq ++ e1 } o
+    | (ws1, e1, _, none) =>
+      match mapUntil recvCloseOne ws1 with
+      | (ws2, e2, _, some o) => closeFail { s with ws := ws2, errq := s.errq ++ e1 ++ e2 } o
+      | (ws2, e2, _, none) =>
+        match mapUntil joinOne ws2 with
+        | (ws3, e3, _, some o) => ({ s with ws := ws3, errq := s.errq ++ e1 ++ e2 ++ e3 }, o)
+        | (ws3, e3, _, none) =>
+          ({ s with ws := ws3, errq := s.errq ++ e1 ++ e2 ++ e3, closed := true }, .ok)
 
 /-- `close(timeout=…, terminate=…)`; `timed` = a timeout was given -/
 def closeOp (s : State) (timed terminate : Bool) : State × Outcome :=
@@ -324,7 +338,7 @@ def closeOp (s : State) (timed terminate : Bool) : State × Outcome :=
   else if s.astate = .default then closeTail s terminate
   else
     -- `function = getattr(self, f"{state}_wait"); function(timeout)`  (timeout = 0 if terminate)
-    match waitCore s (timed || terminate) with
+    match waitCore s (cmdOf s.astate) (timed || terminate) with
     | (s1, .ok) => closeTail s1 terminate
     | (s1, .err .timeout) => closeTail s1 true
     | (s1, .hang) => (s1, .hang)
@@ -389,6 +403,8 @@ def showExc : Exc → String
   | .eof => "EOFError"
   | .brokenPipe => "BrokenPipeError"
   | .attributeError => "AttributeError"
+  | .keyError => "KeyError"
+  | .typeError => "TypeError"
   | .worker t => "worker:" ++ toString t
 
 def showOutcome : Outcome → String
